@@ -27,19 +27,14 @@ theorem eqv_sound {K : Type} [BEq K] : UeqSound (UnitV.eqv (K := K)) := by
 section
 variable {K : Type} [Add K] [Sub K] [Mul K] [Div K] [OfNat K 0] [OfNat K 1] [BEq K] [RPow K]
 
-/-- the zero exception is entered: one operand is not a `unyt_array` and one is all zeros -/
+/-- the zero exception is entered: an operand without units is all zeros -/
 def zeroAdoptionApplies (i0 i1 : Operand K) : Bool :=
-  (!(i0.isUnyt) || !(i1.isUnyt)) && (i0.data.allZero || i1.data.allZero)
+  (i0.hasNoUnits && i0.data.allZero) || (i1.hasNoUnits && i1.data.allZero)
 
 theorem adoptZero_none (i0 i1 : Operand K) (u0 u1 : UnitR K)
     (h : zeroAdoptionApplies i0 i1 = false) : adoptZero i0 i1 u0 u1 = (u0, u1) := by
-  simp only [zeroAdoptionApplies] at h
-  simp only [adoptZero]
-  by_cases hg : (!(i0.isUnyt) || !(i1.isUnyt)) = true
-  · rw [hg] at h
-    simp only [Bool.true_and, Bool.or_eq_false_iff] at h
-    simp [hg, h.1, h.2]
-  · simp [hg]
+  simp only [zeroAdoptionApplies, Bool.or_eq_false_iff] at h
+  simp [adoptZero, h.1, h.2]
 
 theorem dim_bne_of_ne {a b : Dim} (h : a ≠ b) : (a != b) = true := by
   simpa using h
